@@ -38,7 +38,8 @@ ASSUMPTIONS = [
 def cases(rng, tier):
     return [c for c in S.gen_cases(rng, tier, 250 if tier == "quick" else 3500) if c["mode"] == "roundtrip"] \
         + S.anyof_optional_cases(random.Random("aopt" + str(rng.getstate()[1][0])), 60 if tier == "quick" else None) \
-        + X.directed_cases() + X.gen_cases(rng, 300 if tier == "quick" else 6000)
+        + X.directed_cases() + X.gen_cases(rng, 300 if tier == "quick" else 6000) \
+        + X.directed_undef_cases() + X.undef_cases(random.Random("undef" + str(rng.getstate()[1][0])), 100 if tier == "quick" else 2000)
 
 
 def search_cases(rng, tier):
